@@ -413,7 +413,12 @@ def rule_F4(ctx, prog, label, rule='F4'):
                     ok, why = False, 'direction %s, but the first swap applied is entry %r, expected %r' % (d, first, want_first)
             if ok and spec.get('row_cap'):
                 # tri variant: the stop row passed to the swap is capped by the swap index
-                args = [pp(strip(a, casts=True)) for a in sw.kids[1:]]
+                def _exp(a, depth=0):
+                    a0 = strip(a, casts=True)
+                    if a0.kind == 'DeclRefExpr' and a0.refkind == 'VarDecl' and depth < 3 and fs.single_def(a0.refid) is not None:
+                        return _exp(fs.single_def(a0.refid), depth + 1)
+                    return a0
+                args = [pp(_exp(a)) for a in sw.kids[1:]]
                 iv = fs._induction(lp)
                 iname = fs.decl[iv[0]].name
                 capped = any(('? ' in a or 'min' in a.lower()) and iname in a for a in args[-1:])
